@@ -204,6 +204,16 @@ def run(chk):
                         for name in ('hc', 'hrvir', 'hsigma3d', 'hmass'):
                             if not np.allclose(decode(name, h2[name]), np.asarray(sorted(sel), dtype=np.float64)):
                                 chk.violation(f'chunk-misaligned-{name}', f'{desc} chunk {chunk}/2: {name} rows are not aligned with hid', payload)
+                        # the particles of a chunk are those of ITS slab files, each pointing at its host row
+                        p2 = b2.particle_data
+                        ph2 = np.asarray(p2['phid']).astype(np.int64) - np.int64(base)
+                        pi2 = np.asarray(p2['pinds']).astype(np.int64)
+                        want_ph2 = [i for hs in parts_all[chunk * njump:(chunk + 1) * njump] for i in hs]
+                        hid2 = np.asarray(h2['hid']).astype(np.int64) - np.int64(base)
+                        if ph2.tolist() != want_ph2:
+                            chk.violation('chunk-particles', f'{desc} chunk {chunk}/2: particle host ids {ph2.tolist()} are not those of the chunk\'s slab files {want_ph2}', payload)
+                        elif len(ph2) and (np.any(pi2 < 0) or np.any(pi2 >= len(hid2)) or not np.array_equal(hid2[np.clip(pi2, 0, len(hid2) - 1)], ph2)):
+                            chk.violation('chunk-particle-host-index', f'{desc} chunk {chunk}/2: hid[pinds] != phid', payload)
                 except Exception as e:  # noqa
                     if sum(len(s) for s in slabs[chunk * int(np.ceil(len(slabs) / 2)):(chunk + 1) * int(np.ceil(len(slabs) / 2))]) > 0:
                         chk.violation(f'chunk-raises-{type(e).__name__}', f'{desc} chunk {chunk}/2: {type(e).__name__}: {e}', payload)
